@@ -84,6 +84,12 @@ def gen_cases(tier, seed):
         for kind in ("generic", "symmetric", "almost", "first-group-symmetric", "last-group-symmetric"):
             yield {"w": "dense", "shape": shp, "groups": groups, "kind": kind, "shuffle_groups": bool(rng.integers(0, 2)),
                    "cseed": int(seed) * 141650939 % (2 ** 31) + next(cs)}
+    # groups of four or five modes whose data is invariant under the rotations and the reversal of the modes *as listed* (a proper
+    # subgroup from four modes on), under the rotations only, and under two disjoint swaps: always present, listed order kept
+    for shp, groups in (([2, 2, 2, 2], [[0, 1, 2, 3]]), ([3, 3, 3, 3], [[0, 1, 2, 3]]), ([2, 3, 2, 2, 2], [[0, 2, 3, 4]]), ([2, 2, 2, 2], [[3, 1, 0, 2]]),
+                        ([2, 2, 2, 2, 2], [[0, 1, 2, 3, 4]])):
+        for kind in ("sub-cyclic", "sub-dihedral", "sub-pairs"):
+            yield {"w": "dense", "shape": shp, "groups": groups, "kind": kind, "shuffle_groups": False, "cseed": int(seed) * 141650939 % (2 ** 31) + next(cs)}
     # tensors with more than 2^16 elements: symmetric, and symmetric except for one entry whose partner lies at the far end
     for shp, groups in (([300, 300], [[0, 1]]), ([41, 41, 41], [[0, 1, 2]]), ([45, 40, 45], [[0, 2]]), ([17, 17, 17, 17], [[0, 1], [2, 3]])):
         for kind in ("symmetric", "tail-off", "head-off"):
